@@ -54,10 +54,15 @@ var vfC01S2Cache sync.Map // "pro|keys" -> *vfC01S2
 
 // vfC01PassThrough runs an honest session to the end with an attacker that only forwards.
 func vfC01PassThrough(ctx context.Context, cfg vfC01Cfg, ids vfC01Ids, suffix string, session bool) (*vfC01Sess, [][]byte) {
-	s, err := vfC01NewSess(ctx, cfg, ids, suffix, session)
+	s, err := vfC01NewSess(ctx, cfg, ids, suffix, session, nil)
 	if err != nil {
 		return nil, nil
 	}
+	return s, vfC01Forward(s)
+}
+
+// vfC01Forward: an attacker that only forwards, until nothing moves any more
+func vfC01Forward(s *vfC01Sess) [][]byte {
 	var frames [][]byte
 	synctest.Wait()
 	if s.I.tap.count() > 0 {
@@ -75,7 +80,42 @@ func vfC01PassThrough(ctx context.Context, cfg vfC01Cfg, ids vfC01Ids, suffix st
 			}
 		}
 	}
-	return s, frames
+	return frames
+}
+
+// vfC01HonestPair runs honest sessions between the two hosts on the given Transport objects, in both
+// directions (A dials B, B dials A), each side naming its real counterpart, and judges every endpoint
+// against the ledger.  Returns the number of endpoints (of 4) that completed.
+func vfC01HonestPair(ctx context.Context, c *vfC01Ctx, tp *vfC01Tpts, ids vfC01Ids, tag string) int {
+	done := 0
+	for dir := 0; dir < 2; dir++ {
+		ki, kr, ti, tr := ids.A, ids.B, tp.a, tp.b
+		if dir == 1 {
+			ki, kr, ti, tr = ids.B, ids.A, tp.b, tp.a
+		}
+		s := &vfC01Sess{
+			I: vfC01StartSide(ctx, "I"+tag, "I", ki, ti, kr.id, "match"),
+			R: vfC01StartSide(ctx, "R"+tag, "R", kr, tr, ki.id, "match"),
+		}
+		frames := vfC01Forward(s)
+		pi := &vfC01Producer{name: s.I.name, live: true, key: ki}
+		pr := &vfC01Producer{name: s.R.name, live: true, key: kr}
+		for i, f := range frames {
+			if i == 1 {
+				pr.toI = append(pr.toI, f)
+			} else {
+				pi.toR = append(pi.toR, f)
+			}
+		}
+		for _, side := range []*vfC01Side{s.I, s.R} {
+			vfC01Audit(c, side, []*vfC01Producer{pi, pr})
+			if side.done() {
+				done++
+			}
+		}
+		s.finish()
+	}
+	return done
 }
 
 // the other honest session between the same identities under the same prologues (it names its real
@@ -211,6 +251,8 @@ func (x *vfC01Exec) sideErr(side string) error {
 // step executes one model action; false: the walk cannot be continued
 func (x *vfC01Exec) step(ctx context.Context, i int, op vfh.Op) bool {
 	switch op.Name() {
+	case "warm":
+		return true // done before the attacked session started
 	case "edit":
 		kind, a := op.S("kind"), op.I("a")
 		if len(x.air) != 1 || x.k != op.I("k") {
@@ -351,7 +393,27 @@ func vfC01RunWalk(t *testing.T, res *vfh.Result, lay vfC01Layout, pool vfC01KeyP
 		if err != nil {
 			return
 		}
-		x.sess, err = vfC01NewSess(ctx, j.cfg, ids, "", j.session)
+		// warm history: honest sessions between the same identities complete first, in both directions, on
+		// Transport objects that stay alive; the attacked session then runs on those same objects or on fresh
+		// ones (a package-level memory is process-wide, an object-level one is not)
+		var tp, warmTp *vfC01Tpts
+		if len(j.w.Steps) > 0 && j.w.Steps[0].Op.Name() == "warm" {
+			if warmTp, err = vfC01NewTpts(ids); err != nil {
+				return
+			}
+			c.note = j.pass + " warm"
+			if n := vfC01HonestPair(ctx, c, warmTp, ids, "w"); n != 4 {
+				c.mismatch("L2:honest-session-fails", "an honest session of the warm-up did not complete on both sides", 4, n)
+			}
+			if ch.rnd.Intn(2) == 0 {
+				tp = warmTp
+				c.note += " (same transport objects)"
+			} else {
+				c.note += " (fresh transport objects)"
+			}
+			res.Inc("N.warm", 1)
+		}
+		x.sess, err = vfC01NewSess(ctx, j.cfg, ids, "", j.session, tp)
 		if err != nil {
 			return
 		}
@@ -389,6 +451,12 @@ func vfC01RunWalk(t *testing.T, res *vfh.Result, lay vfC01Layout, pool vfC01KeyP
 				}
 			}
 		}
+		if warmTp != nil {
+			// whatever the attacker did must not poison later honest sessions on the same objects
+			if n := vfC01HonestPair(ctx, c, warmTp, ids, "p"); n != 4 {
+				c.mismatch("L2:honest-session-fails", "an honest session after the attack did not complete on both sides", 4, n)
+			}
+		}
 		res.Count(1, steps)
 		count = ch.count
 		if j.w.Walk%997 == 0 && form == 0 {
@@ -415,12 +483,12 @@ func vfC01RunSwap(t *testing.T, res *vfh.Result, pool vfC01KeyPool, j *vfC01Job,
 			c.prefix = append(c.prefix, st.Op)
 		}
 		var s [2]*vfC01Sess
-		s[0], err = vfC01NewSess(ctx, j.cfg, ids, "", j.session)
+		s[0], err = vfC01NewSess(ctx, j.cfg, ids, "", j.session, nil)
 		if err != nil {
 			return
 		}
 		defer s[0].finish()
-		s[1], err = vfC01NewSess(ctx, vfC01Cfg{Ei: "match", Er: "match", Pro: j.cfg.Pro}, ids, "2", j.session)
+		s[1], err = vfC01NewSess(ctx, vfC01Cfg{Ei: "match", Er: "match", Pro: j.cfg.Pro}, ids, "2", j.session, nil)
 		if err != nil {
 			return
 		}
@@ -500,7 +568,7 @@ func vfC01DiscoverLayout(t *testing.T, pool vfC01KeyPool) (lay vfC01Layout, err 
 		defer cancel()
 		ids := pool.ids("Ed25519", "Ed25519", "Ed25519")
 		cfg := vfC01Cfg{Ei: "diff", Er: "match", Pro: "none"} // the initiator names M: the harness answers as M
-		s, e := vfC01NewSess(ctx, cfg, ids, "", false)
+		s, e := vfC01NewSess(ctx, cfg, ids, "", false, nil)
 		if e != nil {
 			err = e
 			return
@@ -664,6 +732,8 @@ func TestVerifC01NoiseReplay(t *testing.T) {
 	shards := vfh.EnvInt("VERIF_C01_SHARDS", 8)
 	var mu sync.Mutex
 	var machinery []string
+	// the order of the attacks within the process varies with the seed
+	mrand.New(mrand.NewSource(seed)).Shuffle(len(jobs), func(a, b int) { jobs[a], jobs[b] = jobs[b], jobs[a] })
 	ch := make(chan *vfC01Job, len(jobs))
 	for _, j := range jobs {
 		ch <- j
